@@ -347,6 +347,24 @@ static err_t call_zm(fc_ctx* c)
 	qrMul(c->a[8], c->a[6], c->a[7], r, st);
 	qrSqr(c->a[6], c->a[8], r, st);
 	qrAdd(c->a[8], c->a[6], c->a[7], r);
+	{
+		/* x - y = x + (-y); (x / y) y = x for a unit y */
+		word* d1 = (word*)sk_alloc(W(r->n));
+		word* d2 = (word*)sk_alloc(W(r->n));
+		qrSub(d1, c->a[8], c->a[7], r);
+		qrNeg(d2, c->a[7], r);
+		qrAdd(d2, d2, c->a[8], r);
+		if (!wwEq(d1, d2, r->n))
+			return ERR_BAD_LOGIC;
+		if (zzIsOdd(r->mod, r->n) && !qrIsZero(c->a[7], r) &&
+			zzIsCoprime(c->a[7], r->n, r->mod, r->n, stk(zzIsCoprime_deep(r->n, r->n))))
+		{
+			qrDiv(d1, c->a[8], c->a[7], r, st);
+			qrMul(d2, d1, c->a[7], r, st);
+			if (!wwEq(d2, c->a[8], r->n))
+				return ERR_BAD_LOGIC;
+		}
+	}
 	qrTo(c->a[0], c->a[8], r, st);
 	return ERR_OK;
 }
@@ -421,8 +439,9 @@ static err_t call_ecp(fc_ctx* c)
 /* binary field object */
 static void gen_gf2(fc_ctx* c)
 {
-	static const size_t P[][4] = { {163, 7, 6, 3}, {233, 74, 0, 0}, {283, 12, 7, 5}, {409, 87, 0, 0}, {571, 10, 5, 2}, {191, 9, 0, 0}, {257, 12, 0, 0} };
-	unsigned k = fc_below(c, 7);
+	static const size_t P[][4] = { {163, 7, 6, 3}, {233, 74, 0, 0}, {283, 12, 7, 5}, {409, 87, 0, 0}, {571, 10, 5, 2}, {191, 9, 0, 0}, {257, 12, 0, 0},
+		{127, 63, 0, 0} /* m - k a multiple of the word size: the Trinomial0 code */ };
+	unsigned k = fc_below(c, 8);
 	size_t m = P[k][0], no = O_OF_B(m), n = W_OF_B(m);
 	size_t* pp = (size_t*)fc_raw(c, 4 * sizeof(size_t));
 	memcpy(pp, P[k], 4 * sizeof(size_t));
